@@ -16,6 +16,7 @@ import (
 	"sync/atomic"
 	"time"
 	"unsafe"
+	c06lib "verif/checks/c06/lib"
 
 	"github.com/TarsCloud/TarsGo/tars/protocol/codec"
 	"verif/common"
@@ -38,8 +39,10 @@ func Main(reg Registry) {
 		mainC03(reg)
 	case "C04":
 		mainC04(reg)
+	case "C06":
+		mainC06(reg)
 	default:
-		fmt.Fprintf(os.Stderr, "INFRA-ERROR: %s must be C03 or C04 (the driver is started by the bootstrap of checks/c03 or checks/c04)\n", envProp)
+		fmt.Fprintf(os.Stderr, "INFRA-ERROR: %s must be C03, C04 or C06 (the driver is started by the bootstrap of checks/c03 or checks/c04)\n", envProp)
 		os.Exit(2)
 	}
 }
@@ -584,4 +587,23 @@ func bootFacts() map[string]any {
 		_ = json.Unmarshal([]byte(s), &m)
 	}
 	return m
+}
+
+// mainC06 hands the corpus structs to the C06 check (verif/checks/c06/lib), which also runs
+// on the framework's own structs, primitive fields, byte vectors and TUP attribute sets.
+func mainC06(reg Registry) {
+	subjects, _, _, err := LoadSubjects(os.Getenv(envTarsDir), reg)
+	if err != nil {
+		fmt.Fprintf(os.Stderr, "INFRA-ERROR: %v\n", err)
+		os.Exit(2)
+	}
+	var ext []c06lib.ExtStruct
+	for _, s := range subjects {
+		if s.Origin != "corpus" {
+			continue
+		}
+		s := s
+		ext = append(ext, c06lib.ExtStruct{Def: s.Def, Family: s.Family, New: func() c06lib.TarsStruct { return s.New() }})
+	}
+	c06lib.Run(ext)
 }
